@@ -1,12 +1,12 @@
 package main
 
 import (
-	"time"
 	"flag"
 	"fmt"
 	"os"
 	"sort"
 	"strings"
+	"time"
 )
 
 func main() {
@@ -169,4 +169,3 @@ func truncate(s string, n int) string {
 	}
 	return s
 }
-
